@@ -980,7 +980,7 @@ fn eval_clock(c: &ClockCase) -> Outcome {
 // ------------------------------------------------------------------------------------------
 // a muxer whose sink failed must not leave anything behind for the next muxer on the thread
 
-fn eval_after_failure(c: &ValidCase) -> Outcome {
+pub fn eval_after_failure(c: &ValidCase) -> Outcome {
     use crate::faultsink::{FaultSink, Script};
     let mut o = Outcome::default();
     let l = lower(c);
@@ -1021,6 +1021,7 @@ fn eval_after_failure(c: &ValidCase) -> Outcome {
             for (who, cfg, ops, want) in [("a small recording", &small, &follower_ops, &follower_ref), ("the same recording", &l.cfg, &l.ops, &r)] {
                 let again = run_history(cfg, ops);
                 if let Some(p) = &again.panic {
+                    o.aborted_by_panic = Some(p.clone());
                     o.fail(
                         "same_bytes",
                         format!("same_bytes.after_a_failed_muxer.{}.panic", ["sticky", "transient", "sink_panicked"][k]),
@@ -1043,7 +1044,7 @@ fn eval_after_failure(c: &ValidCase) -> Outcome {
     o
 }
 
-fn after_failure_cases(t: Tier) -> Vec<ValidCase> {
+pub fn after_failure_cases(t: Tier) -> Vec<ValidCase> {
     let mut v = crate::scenario::aimed_cases(t);
     // and a few ordinary small ones
     for (codec, audio) in [(0u8, 1u8), (1, 0), (2, 7), (3, 1)] {
